@@ -119,7 +119,23 @@ struct Ver {
         born(88800 + long(l.size()));
         verif::emit("pcp " + nm(id) + " " + nm(-1) + " " + std::to_string(88800 + long(l.size())));
     }
-    Ver& operator=(const Ver&) = delete;
+    // cow_guarded never assigns to a payload object: a new value is always a NEW object.  The assignment operators exist
+    // (so that a tree under test that does assign still builds) and are traced as an ordinary write of the target — the
+    // model and the oracle then see a write to whatever object the library assigned to (a published one is a violation).
+    Ver& operator=(const Ver& o)
+    {
+        int src = -1;
+        long v = o.read_words("copy", src);
+        set(v);
+        return *this;
+    }
+    Ver& operator=(Ver&& o) noexcept
+    {
+        int src = -1;
+        long v = o.read_words("copy", src);
+        set(v);
+        return *this;
+    }
     ~Ver()
     {
         int i = check("destruction");
